@@ -465,9 +465,36 @@ type c13E2E struct {
 	PermResp bool        `json:"server_permutes_series_order_per_response,omitempty"`
 	Repeats  int         `json:"times_the_query_is_asked"`
 	FastAt   int64       `json:"slice_answered_first_contains_ns,omitempty"`
+	History  []c13Hist   `json:"later_queries_on_the_same_client,omitempty"`
 	Repeated [][]c13R    `json:"result_of_repeated_call,omitempty"`
 	Err      string      `json:"error,omitempty"`
 	mu       sync.Mutex
+}
+
+// a later query on the same client (same cache) that differs from the case's query in exactly one parameter
+type c13Hist struct {
+	Kind     string      `json:"differs_in"`
+	Expr     string      `json:"expr"`
+	Start    int64       `json:"start_ns"`
+	End      int64       `json:"end_ns"`
+	Lookback int64       `json:"lookback_ns"`
+	Step     int64       `json:"step_ns"`
+	Series   []c13Series `json:"series,omitempty"` // only when the expression differs
+	Result   []c13R      `json:"result,omitempty"`
+	Expected []c13R      `json:"expected_unsliced,omitempty"`
+}
+
+// start of the first slice RangeQuery asks for (independent reference: Go's Duration.Round / Time.Round)
+func c13FirstStart(start, end, dur, step int64) int64 {
+	size := int64(time.Duration(2 * time.Hour).Round(time.Duration(step)))
+	if size <= 0 || size > dur || end-start <= step {
+		return start
+	}
+	g := c13RoundTo(start, size)
+	if g > start {
+		g -= size
+	}
+	return g
 }
 
 type c13Server struct {
@@ -624,6 +651,43 @@ func c13RunE2E(srv *c13Server, url string, c *c13E2E, watch *c13Watch) string {
 			break
 		}
 	}
+	c.mu.Lock()
+	ownReqs, ownSteps := len(c.Requests), len(c.ReqSteps)
+	c.mu.Unlock()
+	// a HISTORY on the same client: queries that share everything with the case's query but one parameter (step, end,
+	// start, expression).  Each must equal ITS OWN unsliced reference: whatever determines the answer must be part of the
+	// identity under which slices are cached.
+	for hi := range c.History {
+		h := &c.History[hi]
+		if repeatFail != "" {
+			break
+		}
+		ser := c.Series
+		if h.Series != nil {
+			ser = h.Series
+			srv.mu.Lock()
+			srv.cases[h.Expr] = &c13E2E{ID: c.ID, Series: h.Series, PermResp: c.PermResp}
+			srv.mu.Unlock()
+		}
+		watch.enter(fmt.Sprintf("e2e-%d", c.ID), c, 60*time.Second)
+		hres, herr := fg.RangeQuery(context.Background(), h.Expr,
+			c13AbsRange{start: c13T(h.Start), end: c13T(h.End), dur: time.Duration(h.Lookback), step: time.Duration(h.Step)})
+		watch.leave()
+		if herr != nil {
+			repeatFail = fmt.Sprintf("a later query on the same client (differs in %s) fails: %v", h.Kind, herr)
+			break
+		}
+		h.Result = c13FromMTR(hres.Series.Ranges)
+		h.Expected = c13Canon(c13Runs(ser, c13FirstStart(h.Start, h.End, h.Lookback, h.Step), c13WireNs(h.End), h.Step))
+		all = append(all, handed{hres, append([]c13R(nil), h.Result...)})
+		if !c13EqRs(c13Canon(h.Result), h.Expected) {
+			repeatFail = fmt.Sprintf("a later query on the same client that differs from an earlier one only in its %s "+
+				"does not return the runs of its own unsliced evaluation (answered with slices cached for the other query?)", h.Kind)
+		}
+	}
+	c.mu.Lock()
+	c.Requests, c.ReqSteps = c.Requests[:ownReqs], c.ReqSteps[:ownSteps]
+	c.mu.Unlock()
 	if repeatFail == "" {
 		for k, hd := range all {
 			if !c13EqRs(c13FromMTR(hd.res.Series.Ranges), hd.snap) {
@@ -711,6 +775,73 @@ func c13CoqE2E(c *c13E2E) string {
 
 // ---------------------------------------------------------------------------------------------
 // generators
+
+// c13GenHistory: one or two later queries on the same client, each differing from the case's query in one parameter
+func c13GenHistory(r *rand.Rand, c *c13E2E, hist func(string)) []c13Hist {
+	name := fmt.Sprintf("c13_case_%d", c.ID)
+	var out []c13Hist
+	size := int64(time.Duration(2 * time.Hour).Round(time.Duration(c.Step)))
+	for k := 1 + r.Intn(2); k > 0; k-- {
+		h := c13Hist{Expr: name, Start: c.Start, End: c.End, Lookback: c.Lookback, Step: c.Step}
+		switch r.Intn(4) {
+		case 0:
+			// another step; prefer one with the same slice size (the slices then have the same boundaries)
+			var same, other []int64
+			for _, st := range c13Steps {
+				if st == c.Step || (c.End-c.Start)/st > 20000 {
+					continue
+				}
+				if int64(time.Duration(2*time.Hour).Round(time.Duration(st))) == size {
+					same = append(same, st)
+				} else {
+					other = append(other, st)
+				}
+			}
+			switch {
+			case len(same) > 0 && (len(other) == 0 || r.Intn(4) != 0):
+				h.Step = same[r.Intn(len(same))]
+			case len(other) > 0:
+				h.Step = other[r.Intn(len(other))]
+			default:
+				continue
+			}
+			h.Kind = "step"
+		case 1:
+			d := (1 + r.Int63n(5)) * c.Step
+			if c.End-d <= c.Start+c.Step {
+				continue
+			}
+			h.End = c13SafeNs(c.End - d - r.Int63n(2)*c13Ms*int64(r.Intn(900)))
+			h.Lookback = h.End - h.Start
+			h.Kind = "end"
+		case 2:
+			d := (1 + r.Int63n(5)) * c.Step
+			if c.Start+d >= c.End-c.Step {
+				continue
+			}
+			h.Start = c.Start + d
+			h.Lookback = h.End - h.Start
+			h.Kind = "start"
+		default:
+			// another expression over the same window: the same series one step later
+			h.Expr = name + "_b"
+			for _, s := range c.Series {
+				s2 := c13MkSeries(s.K, nil)
+				for _, iv := range s.Ivs {
+					s2.Ivs = append(s2.Ivs, c13TR{iv.S + c.Step, iv.E + 2*c.Step})
+				}
+				h.Series = append(h.Series, s2)
+			}
+			if h.Series == nil {
+				continue
+			}
+			h.Kind = "expression"
+		}
+		hist("e2e-history=differs-in-" + h.Kind)
+		out = append(out, h)
+	}
+	return out
+}
 
 var c13Steps = []int64{1 * c13Sec, 1500 * c13Ms, 2 * c13Sec, 7 * c13Sec, 15 * c13Sec, 30 * c13Sec, 60 * c13Sec, 300 * c13Sec,
 	420 * c13Sec, 660 * c13Sec, 3600 * c13Sec, 5400 * c13Sec, 3 * 3600 * c13Sec, 4 * 3600 * c13Sec}
@@ -816,6 +947,9 @@ func runC13(args []string) int {
 	e2e := func(c *c13E2E, tag string) {
 		if c.Repeats == 0 {
 			c.Repeats = 2 + c.ID%2
+		}
+		if c.History == nil && tag == "e2e" {
+			c.History = c13GenHistory(r, c, hist)
 		}
 		what := c13RunE2E(srv, hs.URL, c, watch)
 		boundary := false
